@@ -4,6 +4,6 @@ export DISCOPY_REPO=${VP_RUN_REPO:-/repo}
 export VERIF_PROCS=${VERIF_PROCS:-10}
 for i in ${THOROUGH_IDS:-10 08 16 19 20 18 17 11 05 06 07 02 03 09 04 01 12 15 14 13}; do
   echo "=== C$i $(date +%H:%M:%S)"
-  VERIF_DUMP=dump_C$i.json timeout 5400 /venv/bin/python -m mc.run C$i --tier thorough 2>&1 | grep -E "^C$i|^VIOLATION|signature=|KNOWN|Error|Traceback" | cut -c1-300 | head -40
+  VERIF_DUMP=dump_C$i.json timeout 7200 /venv/bin/python -m mc.run C$i --tier thorough 2>&1 | grep -E "^C$i|^VIOLATION|signature=|KNOWN|Error|Traceback" | cut -c1-300 | head -40
 done
 echo "=== done $(date +%H:%M:%S)"
